@@ -436,8 +436,15 @@ fn random_trace(mode: &str, rng: &mut SmallRng, steps: usize) -> Sim {
                 if total_writes < write_budget {
                     let len = if std::env::var("SIM_NOZERO").is_ok() { pick(rng, &[1usize, 1, 2, 3, 5]) } else { pick(rng, &[1usize, 1, 2, 3, 5, 0]) };
                     if rng.random_range(0..4) == 0 {
-                        let a = rng.random_range(0..=len);
-                        cands.push((4, json!({"op": "write", "e": e, "h": h, "lens": [a, len - a], "vectored": true})));
+                        // vectored writes: 1..12 slices, some of them empty, splitting `len` (or a longer payload)
+                        let total = if rng.random_range(0..3) == 0 { len + rng.random_range(0..=12usize) } else { len };
+                        let parts = rng.random_range(1..=12usize);
+                        let mut lens = vec![0usize; parts];
+                        for _ in 0..total {
+                            let k = rng.random_range(0..parts);
+                            lens[k] += 1;
+                        }
+                        cands.push((4, json!({"op": "write", "e": e, "h": h, "lens": lens, "vectored": true})));
                     } else {
                         cands.push((4, json!({"op": "write", "e": e, "h": h, "len": len})));
                     }
